@@ -23,6 +23,10 @@ var vhC11Opts = []struct {
 	{"{% include NAME ignore missing with {'w': wv} %}", true, false, true},
 	{"{% include NAME ignore missing with {'w': wv} only %}", true, true, true},
 	{"{% include NAME with {'w': wv, 'a': 'over'} %}", true, false, false},
+	// with-expressions that mention names the same clause binds: each is evaluated in the includer's scope
+	{"{% include NAME with {'a': wv, 'w': a} %}", true, false, false},
+	{"{% include NAME with {'w': a, 'a': wv} only %}", true, true, false},
+	{"{% include NAME with {'a': a ~ '1', 'w': a ~ '2', 'b': a ~ '3'} %}", true, false, false},
 }
 
 var vhC11Sites = []string{
@@ -117,8 +121,13 @@ func VH_C11_Include() {
 	}
 	if opt.with {
 		sw = wv
-		if o == 7 {
+		switch o {
+		case 7:
 			sa = "over"
+		case 8, 9:
+			sa, sw = wv, av
+		case 10:
+			sa, sw, sb = av+"1", av+"2", av+"3"
 		}
 	}
 	want := probe + "[a=" + sa + ";b=" + sb + ";w=" + sw + ";s=]K" + probe
